@@ -26,6 +26,8 @@ when the string arm reports "string corrupted"):
   taddat <s> <i> <d>                … x[i] += d …
   tpopp <s> <step>…                 … r = try [1, pop x<steps>] catch _ -> 0 …
   trmip <s> <i> <step>…             … r = try [1, remove x<steps>[i]] catch _ -> 0 …
+  taddatp <s> <d> <step>…           … x<steps> += d …
+  tswapp <s> <yv> <step>…           x = s; y = yv; r = try (swap x<steps>, y; 1) …
   tswap / tswap2 <s> <i> <yv>       x = s; y = yv; r = try (swap x[i], y; 1) …  /  swap y, x[i]
 Response: `<impl>\t<spec>`. -/
 import NoulithModel.Spec.PyIndex
@@ -161,8 +163,58 @@ def specSwap (x i yv : Val) (yFirst : Bool) : String :=
     triple (if w.2 then "1" else "0") (render w.1) (render (if w.2 || yFirst then a else yv))
   | _ => triple "0" (render x) (render yv)
 
+/-- read `x<steps>` (index steps only), as `eval_lvalue_as_obj` does: no forcing of streams -/
+def readPath (idx : Val → Val → Out Val) (x : Val) : List Ix → Out Val
+  | [] => .ok x
+  | .index i :: rest => (idx x i).bind fun e => readPath idx e rest
+  | .slice _ _ :: _ => .throw
+
+/-- `x<steps> += d` as [r, x, alias] -/
+def implAddP (x : Val) (ixs : List Ix) (d : Int) : Val × WEnd :=
+  match readPath Index.index x ixs with
+  | .ok old =>
+    let r1 := Index.setIndexS x ixs none false
+    if r1.2.isDone then
+      match old with
+      | .int o => Index.setIndexS r1.1 ixs (some (.int (o + d))) false
+      | _ => (r1.1, .failed)
+    else r1
+  | _ => (x, .failed)
+def specAddP (x : Val) (ixs : List Ix) (d : Int) : Val × Bool :=
+  match readPath PyIndex.index x ixs with
+  | .ok old =>
+    let r1 := PyIndex.setPathS x ixs none false
+    if r1.2 then
+      match old with
+      | .int o => PyIndex.setPathS r1.1 ixs (some (.int (o + d))) false
+      | _ => (r1.1, false)
+    else r1
+  | _ => (x, false)
+
+def implSwapP (x : Val) (ixs : List Ix) (yv : Val) : String :=
+  match readPath Index.index x ixs with
+  | .ok a =>
+    let w := Index.setIndexS x ixs (some yv) false
+    triple (if w.2.isDone then "1" else "0") (if w.2 = .corrupted then "corrupted" else render w.1)
+      (render (if w.2.isDone then a else yv))
+  | _ => triple "0" (render x) (render yv)
+def specSwapP (x : Val) (ixs : List Ix) (yv : Val) : String :=
+  match readPath PyIndex.index x ixs with
+  | .ok a =>
+    let w := PyIndex.setPathS x ixs (some yv) false
+    triple (if w.2 then "1" else "0") (render w.1) (render (if w.2 then a else yv))
+  | _ => triple "0" (render x) (render yv)
+
 def handle (args : List String) : String :=
   match args with
+  | "taddatp" :: s :: d :: steps =>
+    match val? s, d.toInt?, steps? steps with
+    | some s, some d, some ixs => implW (implAddP s ixs d) s ++ "\t" ++ specW (specAddP s ixs d) s
+    | _, _, _ => "bad-op"
+  | "tswapp" :: s :: yv :: steps =>
+    match val? s, val? yv, steps? steps with
+    | some s, some yv, some ixs => implSwapP s ixs yv ++ "\t" ++ specSwapP s ixs yv
+    | _, _, _ => "bad-op"
   | "tset" :: s :: v :: steps =>
     match val? s, val? v, steps? steps with
     | some s, some v, some ixs =>
